@@ -10,6 +10,7 @@
 
 #include <algorithm>
 #include <array>
+#include <any>
 #include <deque>
 #include <list>
 #include <map>
@@ -547,6 +548,53 @@ static std::string run_il(const std::string& ad, const std::vector<int>& v, cons
     return fin(o, orig);
 }
 
+// Ranges whose element type can be constructed from the range itself (std::any): a temporary of such a type has to be
+// kept as the range it is, not wrapped into a one-element range of its element type.
+template <typename C>
+static std::string run_any(const std::string& ad, const std::string& cat, const std::vector<int>& v, const std::string& orig)
+{
+    auto make = [&]() {
+        C c;
+        for (int x : v)
+            c.push_back(std::any(x));
+        return c;
+    };
+    auto make_const = [&]() -> const C { return make(); };
+    auto num = [](const std::any& a) { return a.type() == typeid(int) ? std::any_cast<int>(a) : -777; };
+    Out o;
+    if (ad == "e")
+    {
+        if (cat == "prv")
+            for (auto p : nitro::lang::enumerate(make()))
+                o.add(p.index(), num(p.value()), true);
+        else if (cat == "cprv")
+            for (auto p : nitro::lang::enumerate(make_const()))
+                o.add(p.index(), num(p.value()), true);
+        else
+        {
+            C tmp = make();
+            for (auto p : nitro::lang::enumerate(std::move(tmp)))
+                o.add(p.index(), num(p.value()), true);
+        }
+    }
+    else
+    {
+        if (cat == "prv")
+            for (auto& x : nitro::lang::reverse(make()))
+                o.add(0, num(x), false);
+        else if (cat == "cprv")
+            for (auto& x : nitro::lang::reverse(make_const()))
+                o.add(0, num(x), false);
+        else
+        {
+            C tmp = make();
+            for (auto& x : nitro::lang::reverse(std::move(tmp)))
+                o.add(0, num(x), false);
+        }
+    }
+    return fin(o, orig);
+}
+
 static std::string handle(const std::vector<std::string>& f)
 {
     const std::string &ad = f.at(0), &kind = f.at(1), &cat = f.at(2);
@@ -557,6 +605,10 @@ static std::string handle(const std::vector<std::string>& f)
     if (kind == "thr")
         return run_hiccup(v, f.at(4));
     std::string orig = f.at(4);
+    if (kind == "anyv")
+        return run_any<std::vector<std::any>>(ad, cat, v, orig);
+    if (kind == "anyl")
+        return run_any<std::list<std::any>>(ad, cat, v, orig);
     if (kind == "vec")
     {
         std::vector<int> c(v);
